@@ -12,7 +12,7 @@ NOTE = ('trusted base: mirdump (MIR serialiser), the mctpsa interpreter/term alg
         'slice/iterator/Cell functions, the hand-written reference tables in /verif/spec')
 
 CHECKS = {
-    'C03': ('abstract interpretation of all encoders; R-layout on the PEC byte; who-may-call on smbus_pec::pec', '4 C03', 'smbus_pec::pec computing CRC-8/0x07 on all inputs is assumed (dependency arithmetic); thorough reads its structural parameters from MIR'),
+    'C03': ('abstract interpretation of all encoders; R-layout on the PEC byte; who-may-call on smbus_pec::pec', '4 C03', 'quick: smbus_pec::pec is an uninterpreted function of its view; thorough additionally interprets its MIR on one symbolic byte (256 leaves = the CRC-8/0x07 step table) and reads its loop skeleton'),
     'C04': ('abstract interpretation of all encoders; bit-level R-layout on bytes 0-3; exact byte-count (no surviving truncation); agreement with the length probe leaves', '4 C04', ''),
     'C05': ('abstract interpretation of all encoders; bit-level R-layout on bytes 4-8', '4 C05', ''),
     'C06': ('abstract interpretation of the 17 request encoders; R-layout against DSP0236 reference bodies keyed by API name', '4 C06', ''),
